@@ -797,6 +797,112 @@ theorem shared_context_indexes_distinct (sched : List Nat) :
 that interleave read the same counter and protect two different packets with the same index. -/
 theorem weakened_lock_reuses_index : (runSched false [0, 1, 0, 1]).emitted = [1, 1] := by decide
 
+/-! ## 6. the sender's state advances for every packet written, whoever is listening -/
+
+theorem streamWriteRTP_state {W WC} (ci : Cipher W WC) (stream : Option Ctx) (rs : List SessMedia) (p : Pkt) :
+    (streamWriteRTP ci stream rs p).map (·.1) = (writeRTP ci stream p).map (·.1) := by
+  simp only [streamWriteRTP, Sec.streamEncryptsEveryRTP, Bool.true_or, if_true]
+  cases writeRTP ci stream p with
+  | none => rfl
+  | some x => rfl
+
+/-- **stream_state_independent_of_readers.**  The outgoing context of a stream after ANY write
+history is the same whatever reader populations were active while the packets were written — secure
+readers, plain readers, nobody, joining and leaving at any point. -/
+theorem stream_state_independent_of_readers {W WC} (ci : Cipher W WC) (stream : Option Ctx)
+    (hist : List (List SessMedia × Pkt)) :
+    streamRun ci stream hist = streamRun ci stream (hist.map fun x => ([], x.2)) := by
+  induction hist generalizing stream with
+  | nil => rfl
+  | cons x rest ih =>
+    obtain ⟨rs, p⟩ := x
+    have h12 : (streamWriteRTP ci stream rs p).map (·.1) = (streamWriteRTP ci stream [] p).map (·.1) :=
+      (streamWriteRTP_state ci stream rs p).trans (streamWriteRTP_state ci stream [] p).symm
+    simp only [streamRun, List.map_cons]
+    cases ha : streamWriteRTP ci stream rs p with
+    | none =>
+      cases hb : streamWriteRTP ci stream [] p with
+      | none => rfl
+      | some y => rw [ha, hb] at h12; simp at h12
+    | some x1 =>
+      cases hb : streamWriteRTP ci stream [] p with
+      | none => rw [ha, hb] at h12; simp at h12
+      | some y =>
+        rw [ha, hb] at h12
+        simp only [Option.map_some, Option.some.injEq] at h12
+        simp only [h12]
+        exact ih y.1
+
+theorem streamRun_eq_sendAll {W WC} (ci : Cipher W WC) (out : Option Ctx) (ssrc : Nat) (jps : List (Nat × Bytes)) :
+    streamRun ci out (jps.map fun jp => ([], { ssrc := ssrc, seq := jp.1 % 65536, payload := jp.2 })) =
+      (sendAll ci out ssrc jps).map (·.1) := by
+  induction jps generalizing out with
+  | nil => rfl
+  | cons jp rest ih =>
+    have h := streamWriteRTP_state ci out [] { ssrc := ssrc, seq := jp.1 % 65536, payload := jp.2 }
+    simp only [List.map_cons, streamRun, sendAll]
+    cases hw : writeRTP ci out { ssrc := ssrc, seq := jp.1 % 65536, payload := jp.2 } with
+    | none =>
+      rw [hw] at h
+      cases hs : streamWriteRTP ci out [] { ssrc := ssrc, seq := jp.1 % 65536, payload := jp.2 } with
+      | none => rfl
+      | some y => rw [hs] at h; simp at h
+    | some x =>
+      rw [hw] at h
+      cases hs : streamWriteRTP ci out [] { ssrc := ssrc, seq := jp.1 % 65536, payload := jp.2 } with
+      | none => rw [hs] at h; simp at h
+      | some y =>
+        rw [hs] at h
+        simp only [Option.map_some, Option.some.injEq] at h
+        simp only [h]
+        rw [ih x.1]
+        cases sendAll ci x.1 ssrc rest with
+        | none => rfl
+        | some z => rfl
+
+/-- **stream_roc_counts_every_packet.**  After `n + 1` consecutive packets of an SSRC from true index
+`j0`, written to ARBITRARY reader populations (one per packet: any mix, or nobody), the stream's
+outgoing roll-over counter — what the MIKEY message of the next SETUP announces — is
+`⌊(j0 + n) / 2^16⌋`: it counts every packet written, observed or not. -/
+theorem stream_roc_counts_every_packet {W WC} (ci : Cipher W WC) (c : Ctx) (ssrc j0 n : Nat)
+    (payload : Nat → Bytes) (readersAt : Nat → List SessMedia)
+    (h0 : Fits (c.state ssrc) j0) (hfw : (c.state ssrc).processed = true → (c.state ssrc).index ≤ j0)
+    (hb : j0 + (n + 1) < two48) :
+    ∃ c', streamRun ci (some c) ((List.range (n + 1)).map fun k =>
+        (readersAt k, ({ ssrc := ssrc, seq := (j0 + k) % 65536, payload := payload k } : Pkt))) = some (some c') ∧
+      c'.roc ssrc = (j0 + n) / 65536 := by
+  obtain ⟨c', fs, hs, hroc, _⟩ := sender_roc_after ci c ssrc j0 payload n h0 hfw hb
+  refine ⟨c', ?_, hroc⟩
+  rw [stream_state_independent_of_readers]
+  have := streamRun_eq_sendAll ci (some c) ssrc ((List.range (n + 1)).map fun k => (j0 + k, payload k))
+  simp only [List.map_map, Function.comp_def] at this ⊢
+  rw [this, hs]
+  rfl
+
+/-! ## 7. protected RTCP never exceeds MaxPacketSize -/
+
+/-- **rtcp_wire_fits.**  At every RTCP write site (stream, session, multicast writer, client) a packet
+that passes the size test is at most `MaxPacketSize` bytes long once protected (index word, MKI,
+tag): it fits the UDP read buffer of the peer and the interleaved frame buffer. -/
+theorem rtcp_wire_fits (site : RtcpSite) (maxPacketSize mkiLen plainLen wire : Nat)
+    (h : rtcpWireSize site maxPacketSize mkiLen plainLen = some wire) :
+    wire ≤ maxPacketSize ∧ wire = plainLen + Sec.srtcpOverhead + (if site = .client then mkiLen else 0) := by
+  cases site <;>
+    simp only [rtcpWireSize, rtcpOverheadAt, Sec.rtcpLimitStream, Sec.rtcpLimitSession, Sec.rtcpLimitMulticast,
+      Sec.rtcpLimitClient, Sec.srtcpOverhead, if_true, reduceCtorEq, if_false] at h ⊢ <;>
+    (split at h <;> simp at h <;> omega)
+
+/-- the limit is tight: exactly `MaxPacketSize − 14 − MKI` plain bytes are accepted, one more is not -/
+theorem rtcp_limit_tight (site : RtcpSite) (maxPacketSize mkiLen : Nat)
+    (hm : Sec.srtcpOverhead + mkiLen ≤ maxPacketSize) :
+    let mki := if site = .client then mkiLen else 0
+    (rtcpWireSize site maxPacketSize mkiLen (maxPacketSize - Sec.srtcpOverhead - mki)).isSome ∧
+    rtcpWireSize site maxPacketSize mkiLen (maxPacketSize - Sec.srtcpOverhead - mki + 1) = none := by
+  cases site <;>
+    simp only [rtcpWireSize, rtcpOverheadAt, Sec.rtcpLimitStream, Sec.rtcpLimitSession, Sec.rtcpLimitMulticast,
+      Sec.rtcpLimitClient, Sec.srtcpOverhead, if_true, reduceCtorEq, if_false] at hm ⊢ <;>
+    (constructor <;> (split <;> simp <;> omega))
+
 /-! ### non-vacuity -/
 
 def key0 : Bytes := (List.range 30).map UInt8.ofNat
